@@ -5,7 +5,9 @@ import PoaVerif.Lemmas.RunRefine
 import PoaVerif.Lemmas.GenesisPre
 import PoaVerif.Lemmas.Quiet
 import PoaVerif.Lemmas.Quiet2.Run
+import PoaVerif.Lemmas.Quiet2.Gov
 import PoaVerif.Witness.Q2
+import PoaVerif.Witness.Q4
 import PoaVerif.Witness.D1
 import PoaVerif.Witness.D1
 import PoaVerif.Witness.D6
@@ -200,5 +202,47 @@ example : quietBlock2B Witness.Q2.s4 Witness.Q2.c4 Witness.Q2.b5 = true := by de
 example : quietBlockB Witness.Q2.s1 Witness.Q2.c1 Witness.Q2.b2 = false := by decide
 example : Witness.Q2.c2 = [(0, 12), (1, 10), (3, 10)] ∧ Witness.Q2.c4 = [(0, 12), (1, 10)] ∧
     Witness.Q2.s3.getVal 2 ≠ none ∧ Witness.Q2.s4.getVal 2 = none := by decide
+
+/-! ### the default configuration: the admin's operations arrive through governance (`Lemmas/Quiet2/Gov`) -/
+
+/-- **C02 and C04 for every quiet history whose admin operations are messages of passed governance proposals**
+    (`QuietHistory3`, decidable form `quietRun3B`, driver lines `QUIET3`): the class of `c02_removals` with two widenings.
+    (1) x/gov's EndBlocker may execute any number of proposals in a block — after the block's transactions, before x/poa's
+    and x/staking's EndBlockers, with the gov account (the admin, or not: `Block.govIsAdmin`) as sender, all messages of a
+    proposal or none; a proposal that fails leaves the state as it was whatever it carried; one that goes through is a
+    **list** of messages each of which, at the state the earlier ones left, leaves the state unchanged or is a SetPower /
+    RemoveValidator / CreateValidator / RemovePending / UpdateStakingParams under the conditions of `c02_removals`.
+    (2) A transaction may likewise be any failing transaction, or carry a list of such messages.
+    The conclusion is that of `c02_removals`. -/
+theorem c02_governance (g : Genesis) (hw : g.wf = true) (bs : List Block) (hq : QuietHistory3 g bs) :
+    ∃ first steps, run genEnv g bs = some (first, steps, RunEnd.done) ∧ steps.length = bs.length ∧
+      Agree first.comet first.app ∧ ∀ st ∈ steps, Agree st.comet st.app := by
+  obtain ⟨first, steps, h1, h2, h3, _, h5⟩ := quiet_history3 g hw bs hq
+  exact ⟨first, steps, h1, h2, h3, fun st hst => (h5 st hst).1⟩
+
+theorem c02_governance_decidable (g : Genesis) (bs : List Block)
+    (h : ∀ u s c, App.initChain g = .ok (u, s) → Comet.applyChangeSet [] u = .ok c → quietRun3B bs s c = true) :
+    QuietHistory3 g bs :=
+  fun u s c hi hc => quietRun3_of_B bs s c (h u s c hi hc)
+
+/-- the histories of `c02_removals` are the special case -/
+theorem c02_governance_includes_removals (g : Genesis) (bs : List Block) (hq : QuietHistory2 g bs) : QuietHistory3 g bs :=
+  fun u s c hi hc => quietRun3_of_2 bs s c (hq u s c hi hc)
+
+/-- non-vacuity (kernel-checked, block by block): the governance witness history `Q4` (generated from the real run of the
+    scripted history `corpus/scripts/Q4.txt`: proposals submitted, voted on by the validators' operators and executed by
+    x/gov): a proposal re-weighting validator 1; a proposal of two messages — removal of validator 2, re-weighting of
+    validator 3; a proposal whose second message fails (nothing of it stays). -/
+example : Witness.Q4.g.wf = true := by decide
+example : quietBlock3B Witness.Q4.s0 Witness.Q4.c0 Witness.Q4.b1 = true := by decide
+example : quietBlock3B Witness.Q4.s1 Witness.Q4.c1 Witness.Q4.b2 = true := by decide
+example : quietBlock3B Witness.Q4.s2 Witness.Q4.c2 Witness.Q4.b3 = true := by decide
+set_option maxHeartbeats 4000000 in
+example : quietBlock3B Witness.Q4.s3 Witness.Q4.c3 Witness.Q4.b4 = true := by decide
+example : quietBlock3B Witness.Q4.s4 Witness.Q4.c4 Witness.Q4.b5 = true := by decide
+example : quietBlock3B Witness.Q4.s5 Witness.Q4.c5 Witness.Q4.b6 = true := by decide
+example : quietBlock2B Witness.Q4.s2 Witness.Q4.c2 Witness.Q4.b3 = false := by decide
+example : Witness.Q4.c3 = [(1, 12), (2, 10), (3, 10), (4, 10)] ∧ Witness.Q4.c4 = [(1, 12), (3, 12), (4, 10)] ∧ Witness.Q4.c5 = Witness.Q4.c4 ∧
+    Witness.Q4.o5.txrs = [TxR.unknown] := by decide
 
 end PoaVerif.Props.C02
